@@ -199,7 +199,23 @@ class StubSim(mosaik_api_v3.Simulator):
         if bad is not None:
             data["time"] = self._bad_value(bad, self.time, None)
         self.ctx.ev("D", self.sid, k, self.time, json.dumps(data, sort_keys=True))
-        return self._enc_data(data)
+        data = self._enc_data(data)
+        if self.ctx.cfg.get("reuse"):
+            # a simulator that keeps ONE reply dictionary (and one dictionary per entity) and
+            # updates it in place before returning it -- `return self.data`, common in practice
+            buf = self.__dict__.setdefault("_reply", {})
+            for key in [x for x in buf if x not in data]:
+                del buf[key]
+            for key, v in data.items():
+                if isinstance(v, dict):
+                    if not isinstance(buf.get(key), dict):
+                        buf[key] = {}
+                    buf[key].clear()
+                    buf[key].update(v)
+                else:
+                    buf[key] = v
+            return buf
+        return data
 
     def finalize(self):
         self.finalized += 1
